@@ -146,7 +146,7 @@ theorem added_module_frame_tight_vft (c : Case) (path : Path) (file : String) (m
     unfold fileOf
     rw [hs key, hs']
     cases hl : List.lookup key base with
-    | none => rfl
+    | none => simp only [Option.map_none]
     | some mod =>
       simp only [Option.map_some, Option.some.injEq]
       exact e6 (key, mod) (C14.mem_of_lookup _ _ _ hl)
@@ -255,5 +255,165 @@ theorem added_module_registry_vft (c : Case) (path : Path) (file : String) (m : 
     (∀ q, s'.reg.contains q = true → s.reg.contains q = true ∨ ∃ x, q = path ++ [x]) := by
   obtain ⟨hr, _⟩ := added_module_core_vft c path file m hps hb hg (hu.tight hne) s s' h h'
   exact ⟨fun q i hi => hr.get_ext hi, hr.new⟩
+
+/-! ## non-vacuity: a concrete pair of cases with `vftable` blocks that satisfies every hypothesis, both accepted
+
+The smaller case is `C09.VftExample.case` (pointer width 8, one module `m` with a base `B` that has a vftable block, a
+derived `D` with its own block extending it, a type `P` with a pointer to `D`, and an extern value of the generated type
+`*const DVftable`).  The added module DERIVES from a type of the old module and has a vftable block of its own:
+
+```text
+// z.pyxis
+use m::D;
+pub type Z { vftable { pub fn v(&self, x: u32); pub fn w(&mut self) -> u32; pub fn q(&self); }
+             #[base] pub d: D,  pub n: u64 }
+```
+
+It depends on the old module (its first base is `m::D`, whose vftable – generated as `m::DVftable` during the run – its
+own table has to extend); nothing of `m` mentions `z`.  The generated paths of the bigger case are `m::BVftable`,
+`m::DVftable` and `z::ZVftable`, and nothing mentions them in a type expression of a definition (`CaseNoGenRefs`, decided
+by the kernel; the extern value of `m` does, which is allowed).  The priority is the one of the smaller case,
+`[m::P, m::D, m::B]`; `z::Z` is not listed and comes last.  Round 1: `P` resolved, `D` waits for the size of its base `B`,
+`B` registers `m::BVftable` and is resolved, `Z` waits for the size of its base `D` (before `vftable::build`: no
+`z::ZVftable` yet).  Round 2: `D` registers `m::DVftable` and is resolved (24 bytes), `Z` registers `z::ZVftable`, finds the
+table of `D` to be a prefix of its own and is resolved (32 bytes).  A third round sees that nothing is left. -/
+namespace VftFrameExample
+
+def modZ : G.Module :=
+  { uses := [["m", "D"]],
+    defs := [
+      { vis := .pub, name := "Z",
+        inner := .type { stmts := [{ field := .vftable [
+                                       { vis := .pub, name := "v", attrs := [],
+                                         args := [.constSelf, .named "x" (.ident "u32")], ret := none },
+                                       { vis := .pub, name := "w", attrs := [], args := [.mutSelf],
+                                         ret := some (.ident "u32") },
+                                       { vis := .pub, name := "q", attrs := [], args := [.constSelf], ret := none }],
+                                     attrs := [] },
+                                   { field := .field .pub "d" (.ident "D"), attrs := [.ident "base"] },
+                                   { field := .field .pub "n" (.ident "u64"), attrs := [] }],
+                         attrs := [] } }] }
+
+def small : Case := C09.VftExample.case
+
+def big : Case := small.withModule (.ast ["z"] "z.pyxis" modZ)
+
+/-! ### the hypotheses of the theorems -/
+
+theorem big_bounded : C12.CaseBounded big := by
+  intro path file m hm
+  simp only [big, small, Case.withModule, C09.VftExample.case, List.cons_append, List.nil_append, List.mem_cons,
+    List.not_mem_nil, or_false, ModEnt.ast.injEq] at hm
+  rcases hm with ⟨_, _, rfl⟩ | ⟨_, _, rfl⟩
+  · exact C09.VftExample.bounded ["m"] "m.pyxis" C09.VftExample.modM (by simp [C09.VftExample.case])
+  · refine ⟨?_, fun xt hx => by cases hx⟩
+    intro d hd
+    simp only [modZ, List.mem_cons, List.not_mem_nil, or_false] at hd
+    subst hd
+    intro n args z ha; cases ha
+
+/-- the generated paths of the bigger case … -/
+example : caseGenPaths big = [["m", "BVftable"], ["m", "DVftable"], ["z", "ZVftable"]] := by decide +kernel
+
+/-- … and nothing mentions them -/
+theorem big_noGenRefs : CaseNoGenRefs big := by decide +kernel
+
+theorem unrelated : Unrelated small ["z"] := by
+  intro me hme
+  simp only [small, C09.VftExample.case, List.mem_cons, List.not_mem_nil, or_false] at hme
+  subst hme
+  refine ⟨Example.not_prefix_of_head (by decide) _ _, ?_⟩
+  intro u hu
+  simp only [C09.VftExample.modM] at hu
+  cases hu
+
+/-! ### both runs are accepted -/
+
+theorem small_ok : isOkB small.run = true := C09.VftExample.run_ok
+
+/-- the state after `add_module` of the two modules … -/
+def t0 : State := C12.stateOf big.initialState
+/-- … after round 1 (`P` resolved; `D` deferred; `B` resolved, `m::BVftable` registered; `Z` deferred, nothing registered) … -/
+def t1 : State := (runRound t0 [["m", "P"], ["m", "D"], ["m", "B"], ["z", "Z"]]).1
+/-- … and after round 2 (`D` resolved, `m::DVftable` registered; `Z` resolved, `z::ZVftable` registered) -/
+def t2 : State := (runRound t1 [["m", "D"], ["z", "Z"]]).1
+
+theorem init : big.initialState = .ok t0 := C12.eq_ok_stateOf _ (by decide +kernel)
+theorem nItems : (t0.reg.types.filter fun e => !e.2.isResolved).length = 4 := by decide +kernel
+
+theorem u0 : t0.reg.unresolved big.prio = [["m", "P"], ["m", "D"], ["m", "B"], ["z", "Z"]] :=
+  unresolved_of_perm _ _ [["z", "Z"], ["m", "P"], ["m", "D"], ["m", "B"]] _ (by decide +kernel)
+    (by decide) (by decide +kernel)
+theorem u1 : t1.reg.unresolved big.prio = [["m", "D"], ["z", "Z"]] :=
+  unresolved_of_perm _ _ [["z", "Z"], ["m", "D"]] _ (by decide +kernel) (List.Perm.swap _ _ _) (by decide +kernel)
+theorem u2 : t2.reg.unresolved big.prio = [] :=
+  unresolved_of_sorted _ _ _ (by decide +kernel) (by decide +kernel)
+
+theorem r0 : runRound t0 [["m", "P"], ["m", "D"], ["m", "B"], ["z", "Z"]] = (t1, .ok ()) := by
+  have : (runRound t0 [["m", "P"], ["m", "D"], ["m", "B"], ["z", "Z"]]).2 = .ok () := by decide +kernel
+  rw [← this]; rfl
+theorem r1 : runRound t1 [["m", "D"], ["z", "Z"]] = (t2, .ok ()) := by
+  have : (runRound t1 [["m", "D"], ["z", "Z"]]).2 = .ok () := by decide +kernel
+  rw [← this]; rfl
+
+theorem loop : resolveLoop big.prio 10 t0 = .ok t2 := by
+  rw [resolveLoop_step _ 9 t0 t1 _ u0 rfl r0 (by rw [u1]; decide +kernel),
+      resolveLoop_step _ 8 t1 t2 _ u1 rfl r1 (by rw [u2]; decide +kernel),
+      resolveLoop_done _ 7 t2 u2]
+
+theorem run_eq : big.run = finish t2 := by
+  unfold Case.run
+  rw [init]
+  simp only []
+  rw [build_eq, nItems, loop]
+
+/-- the bigger case is accepted -/
+theorem big_ok : isOkB big.run = true := by
+  rw [run_eq]
+  decide +kernel
+
+/-- in round 1 the new type waited for the size of its base BEFORE `vftable::build`: its generated item is not there yet -/
+example : t1.reg.contains ["z", "ZVftable"] = false ∧ t1.reg.contains ["m", "BVftable"] = true := by decide +kernel
+/-- all three generated items are registered in the bigger final registry; `Z` has size 32, which needs `m::D` (24) -/
+example : t2.reg.contains ["m", "BVftable"] = true ∧ t2.reg.contains ["m", "DVftable"] = true ∧
+    t2.reg.contains ["z", "ZVftable"] = true := by decide +kernel
+example : (t2.reg.get ["z", "Z"]).bind (fun i => i.resolved?.map (·.size)) = some 32 := by decide +kernel
+
+/-- the theorems apply: the file of `m` exists and is the same in both final states, the bigger case emits exactly one
+    file more, every entry of the smaller final registry – the generated `m::BVftable` and `m::DVftable` among them – is
+    in the bigger one unchanged, and every other key of the bigger one is directly under `z` -/
+theorem frame_applies :
+    ∃ s s', small.run = .ok s ∧ big.run = .ok s' ∧
+      (fileOf s' ["m"] = fileOf s ["m"] ∧ (fileOf s ["m"]).isSome = true) ∧
+      (∀ f ∈ Emit.files s, f ∈ Emit.files s') ∧ (Emit.files s').length = (Emit.files s).length + 1 ∧
+      (∀ q i, s.reg.get q = some i → s'.reg.get q = some i) ∧
+      (∀ q, s'.reg.contains q = true → s.reg.contains q = true ∨ ∃ x, q = ["z"] ++ [x]) := by
+  obtain ⟨s, hs⟩ := (isOkB_iff _).mp small_ok
+  obtain ⟨s', hs'⟩ := (isOkB_iff _).mp big_ok
+  have hne : small.modules ≠ [] := by simp [small, C09.VftExample.case]
+  have hf := added_module_frame_vft small ["z"] "z.pyxis" modZ (Or.inr rfl) big_bounded big_noGenRefs unrelated s s' hs hs'
+  have hl := added_module_files_vft small ["z"] "z.pyxis" modZ (Or.inr rfl) big_bounded big_noGenRefs unrelated hne s s' hs hs'
+  have hr := added_module_registry_vft small ["z"] "z.pyxis" modZ (Or.inr rfl) big_bounded big_noGenRefs unrelated hne s s' hs hs'
+  refine ⟨s, s', hs, hs', ?_, hl.1, hl.2.2, hr.1, hr.2⟩
+  exact hf _ (by simp [small, C09.VftExample.case]) ["m"] "m.pyxis" C09.VftExample.modM rfl
+
+/-- the generated items of the old module are entries of the smaller final registry (so the registry statement is about
+    them too) -/
+example : ∃ s, small.run = .ok s ∧ s.reg.contains ["m", "BVftable"] = true ∧ s.reg.contains ["m", "DVftable"] = true := by
+  obtain ⟨s, hs⟩ := (isOkB_iff _).mp small_ok
+  refine ⟨s, hs, ?_⟩
+  have e : small.run = finish C09.VftExample.s2 := C09.VftExample.run_eq
+  rw [e] at hs
+  have hreg : s.reg = C09.VftExample.s2.reg := by
+    unfold finish at hs
+    split at hs
+    · cases hs; rfl
+    · cases hs
+    · cases hs
+    · cases hs
+  rw [hreg]
+  decide +kernel
+
+end VftFrameExample
 
 end PyxisVerif.C19
